@@ -2281,12 +2281,225 @@ def rule_ifc_symmetric(repo):
     return r
 
 
+def _walk_lists(func, args, log, depth=0):
+    """concrete evaluation of a small recursive list walker (recursive_connect) on nested Python lists of leaf tokens;
+    every call of a method `<obj>._connect(a, b, ...)` is logged.  Statement / expression forms outside the walker idiom
+    raise AnalysisError."""
+    if depth > 8:
+        raise AnalysisError(f"{func.name}: recursion does not terminate on a finite nested list")
+    env = dict(zip([a.arg for a in func.args.args], args))
+
+    def ev(e):
+        if isinstance(e, ast.Name):
+            if e.id in env:
+                return env[e.id]
+            if e.id == 'list':
+                return list
+            raise AnalysisError(f"{func.name}: free name {e.id} in the list walker")
+        if isinstance(e, ast.Constant):
+            return e.value
+        if isinstance(e, ast.Subscript):
+            return ev(e.value)[ev(e.slice)]
+        if isinstance(e, ast.UnaryOp) and isinstance(e.op, ast.Not):
+            return not ev(e.operand)
+        if isinstance(e, ast.BoolOp):
+            vals = [ev(v) for v in e.values]
+            return all(vals) if isinstance(e.op, ast.And) else any(vals)
+        if isinstance(e, ast.Compare) and len(e.ops) == 1:
+            a, b = ev(e.left), ev(e.comparators[0])
+            op = e.ops[0]
+            if isinstance(op, ast.Is):
+                return a is b
+            if isinstance(op, ast.IsNot):
+                return a is not b
+            if isinstance(op, ast.Eq):
+                return a == b
+            if isinstance(op, ast.NotEq):
+                return a != b
+            if isinstance(op, (ast.Lt, ast.LtE, ast.Gt, ast.GtE)) and isinstance(a, int) and isinstance(b, int):
+                return {ast.Lt: a < b, ast.LtE: a <= b, ast.Gt: a > b, ast.GtE: a >= b}[type(op)]
+        if isinstance(e, ast.BinOp) and isinstance(e.op, (ast.Add, ast.Sub)):
+            a, b = ev(e.left), ev(e.right)
+            if isinstance(a, int) and isinstance(b, int):
+                return a + b if isinstance(e.op, ast.Add) else a - b
+        if isinstance(e, ast.UnaryOp) and isinstance(e.op, ast.USub) and isinstance(ev(e.operand), int):
+            return -ev(e.operand)
+        if isinstance(e, ast.Call):
+            fn = norm(e.func)
+            if fn == 'isinstance' and len(e.args) == 2:
+                kinds = e.args[1].elts if isinstance(e.args[1], ast.Tuple) else [e.args[1]]
+                return isinstance(ev(e.args[0]), list) and any(norm(k) == 'list' for k in kinds)
+            if fn == 'type' and len(e.args) == 1:
+                return list if isinstance(ev(e.args[0]), list) else object
+            if fn == 'len' and len(e.args) == 1:
+                return len(ev(e.args[0]))
+            if fn == 'range':
+                return list(range(*[ev(a) for a in e.args]))
+            if fn == 'zip':
+                return list(zip(*[ev(a) for a in e.args]))
+            if fn == 'enumerate' and len(e.args) == 1:
+                return list(enumerate(ev(e.args[0])))
+            if fn == func.name:
+                _walk_lists(func, [ev(a) for a in e.args], log, depth + 1)
+                return None
+            if isinstance(e.func, ast.Attribute) and e.func.attr == '_connect':
+                log.append(tuple(ev(a) for a in e.args) + tuple((k.arg, ev(k.value)) for k in e.keywords))
+                return None
+        if isinstance(e, ast.Tuple):
+            return tuple(ev(x) for x in e.elts)
+        raise AnalysisError(f"{func.name}: expression outside the list-walker idiom: {norm(e)}")
+
+    def bind(t, v):
+        if isinstance(t, ast.Name):
+            env[t.id] = v
+        elif isinstance(t, ast.Tuple):
+            for tt, vv in zip(t.elts, v):
+                bind(tt, vv)
+        else:
+            raise AnalysisError(f"{func.name}: loop target outside the idiom")
+
+    def block(stmts):
+        for st in stmts:
+            if isinstance(st, ast.If):
+                block(st.body if ev(st.test) else st.orelse)
+            elif isinstance(st, ast.For):
+                for v in ev(st.iter):
+                    bind(st.target, v)
+                    block(st.body)
+            elif isinstance(st, ast.Expr):
+                if not isinstance(st.value, ast.Constant):
+                    ev(st.value)
+            elif isinstance(st, ast.Assign) and len(st.targets) == 1:
+                bind(st.targets[0], ev(st.value))
+            elif isinstance(st, (ast.Pass,)):
+                pass
+            elif isinstance(st, ast.Assert):
+                if not ev(st.test):
+                    raise AnalysisError(f"{func.name}: assertion `{norm(st.test)}` fails on equally shaped port lists")
+            elif isinstance(st, ast.Return) and st.value is None:
+                return
+            else:
+                raise AnalysisError(f"{func.name}: statement outside the list-walker idiom: {norm(st)[:80]}")
+    block(func.body)
+
+
+def rule_byname(repo):
+    """By-name connection of two interfaces must reach every pair of corresponding ports, however deeply the ports are nested
+    in lists: a pair that is skipped is a connection the user wrote and the design silently lacks."""
+    r = RuleResult('R-C08-byname', "connect_by_name connects every pair of corresponding leaves of list-valued interface fields (any "
+                                   "nesting depth) exactly once, and hands only leaves (never lists) to _connect")
+    m = repo.mod(L3)
+    f = m.get_func('ComponentLevel3._connect_interfaces.connect_by_name.recursive_connect')
+    fq = 'ComponentLevel3._connect_interfaces.connect_by_name.recursive_connect'
+    shapes = {
+        'scalar': ('A', 'a'),
+        '1-D list': (['A', 'B', 'C'], ['a', 'b', 'c']),
+        '2-D list': ([['A', 'B'], ['C', 'D']], [['a', 'b'], ['c', 'd']]),
+        '3-D list': ([[['A'], ['B']], [['C'], ['D']]], [[['a'], ['b']], [['c'], ['d']]]),
+        '1-element list': (['A'], ['a']),
+    }
+
+    def leaves(x):
+        return [x] if not isinstance(x, list) else [l for y in x for l in leaves(y)]
+    for name, (this, other) in shapes.items():
+        log = []
+        _walk_lists(f, [this, other], log)
+        r.evaluations += 1
+        want = sorted(zip(leaves(other), leaves(this)))
+        got_pairs = [c[:2] for c in log]
+        lists = [c for c in got_pairs if any(isinstance(x, list) for x in c)]
+        def unordered(pairs):
+            return sorted(tuple(sorted(p)) for p in pairs)
+
+        def internal_flag(c):
+            kw = dict(k for k in c[2:] if isinstance(k, tuple))
+            pos = [k for k in c[2:] if not isinstance(k, tuple)]
+            return kw.get('internal', pos[0] if pos else None)
+        ok = not lists and unordered(got_pairs) == unordered(want) and all(internal_flag(c) is True for c in log)
+        cons = f"{name}: {len(want)} port pair(s)"
+        if ok:
+            r.ok(m, fq, cons)
+        elif lists:
+            r.bad(m, fq, cons, f"a whole list is handed to _connect ({lists[0][0]!r} <-> {lists[0][1]!r}), which ignores non-connectable operands "
+                  f"of an internal connection: the ports inside are never connected", f.lineno)
+        else:
+            r.bad(m, fq, cons, f"connected pairs {got_pairs}, expected {want}", f.lineno)
+    r.require_floor(5)
+    return r
+
+
+_NETS_PROBE = """
+def lock(self, top):
+  nets = top.get_all_value_nets()
+  for writer, signals in nets:
+    residence = writer
+    signals.discard( residence )
+    for x in signals:
+      pass
+"""
+
+
+def rule_nets_readonly(repo):
+    """get_all_value_nets() hands out the net sets cached at elaboration; every later consumer (another pass, the user, a second
+    simulator on the same model) sees the same objects."""
+    from sa.taint import mutations_through
+    r = RuleResult('R-C08-nets-readonly', "no pass changes the resolved nets it obtains from get_all_value_nets(): the cached (writer, "
+                                          "members) sets still describe every net after simulation / translation passes were applied")
+
+    def src(e):
+        return (isinstance(e, ast.Call) and isinstance(e.func, ast.Attribute) and e.func.attr in ('get_all_value_nets', 'get_all_method_nets')) or \
+               (isinstance(e, ast.Attribute) and e.attr in ('all_value_nets', 'all_method_nets'))
+    _, pout = mutations_through(ast.parse(_NETS_PROBE).body[0], source_pred=src)
+    if len(pout) != 1:
+        raise AnalysisError("R-C08-nets-readonly: embedded positive example not recognised")
+    n_users = 0
+    for rel in repo.py_files('pymtl3/passes'):
+        m = repo.mod(rel)
+        if 'get_all_value_nets' not in m.src and 'all_value_nets' not in m.src:
+            continue
+        for f in [n for n in ast.walk(m.tree) if isinstance(n, ast.FunctionDef)]:
+            if not any(src(x) for x in ast.walk(f)):
+                continue
+            # only the outermost function that contains the use (nested defs are analysed with it)
+            par = getattr(f, '_parent', None)
+            while par is not None and not isinstance(par, ast.FunctionDef):
+                par = getattr(par, '_parent', None)
+            if par is not None and any(src(x) for x in ast.walk(par)):
+                continue
+            n_users += 1
+            tainted, out = mutations_through(f, source_pred=src)
+            fq = qualname(f)
+            if out:
+                for node, text in out:
+                    r.bad(m, fq, text, "the set belongs to the model's cached nets (top._dsl.all_value_nets): after this pass every "
+                          "reported net has changed (e.g. lost its writer), so a later get_all_value_nets(), a translation or a second "
+                          "simulation pass works on corrupted nets", node.lineno)
+            else:
+                r.ok(m, fq, f"reads the nets through {sorted(tainted)[:6]} without changing them")
+    r.require_floor(3)
+    return r
+
+
 def rule_net_ordering(repo):
     """in simulation every member of a net carries the writer's value: the net block must be ordered after the block that writes the
     net's writer -- also when the writer is nested (slice of a struct field) and the block writes an intermediate ancestor.
     Shared with C02 (R-C02-pairing)."""
     from rules.c02 import rule_pairing
     return rule_pairing(repo)
+
+
+def rule_scc_watch(repo):
+    """a net block inside a (false) combinational loop only delivers the writer's final value if the loop is re-evaluated until the
+    net members -- slices included -- stop changing.  Shared with C11 (R-C11-watch)."""
+    from rules.c11 import rule_watch
+    return rule_watch(repo)
+
+
+def rule_tick_settles(repo):
+    """after sim_tick() the net members equal their (flopped) writer only if the combinational schedule, net blocks included,
+    runs again after the flip in every tick builder.  Shared with C07 (R-tick-order)."""
+    from rules.c07 import rule_tick_order
+    return rule_tick_order(repo)
 
 
 def rule_writer_via_helpers(repo):
@@ -2309,7 +2522,12 @@ def rule_replace_keeps_nets(repo):
     """after replace_component the connections re-applied by the parent are exactly the outside connections of the removed
     subtree (constants tied inside it are not re-applied on top of the replacement).  Shared with C15 (R-C15-saved)."""
     from rules.c15 import rule_saved
-    return rule_saved(repo)
+    res = rule_saved(repo)
+    # scheduling-constraint tables are not nets (C15's known finding D22 is C15's / C02's business)
+    drop = lambda c: 'constraint tables' in c
+    res.findings = [f for f in res.findings if not drop(f.construct)]
+    res.instances = [i for i in res.instances if i['verdict'] != 'VIOLATED' or not drop(i['construct'])]
+    return res
 
 
 def rule_replace_filters(repo):
@@ -2321,7 +2539,7 @@ def rule_replace_filters(repo):
 
 RULES = [rule_symmetric, rule_const, rule_nodes, rule_flood, rule_seed, rule_unique, rule_propagate, rule_residence, rule_netblock, rule_overlap,
          rule_pending_flag, rule_ancestors, rule_collectors, rule_ifc_symmetric, rule_net_ordering, rule_writer_via_helpers,
-         rule_names_denote_storage, rule_replace_keeps_nets, rule_replace_filters]
+         rule_names_denote_storage, rule_replace_keeps_nets, rule_replace_filters, rule_byname, rule_nets_readonly, rule_scc_watch, rule_tick_settles]
 
 
 # ---------------------------------------------------------------------------------------------------------------
@@ -2331,6 +2549,12 @@ def _m(name, file, old, new, rule=None, count=1):
 
 
 MUTANTS = [
+    _m('nets-residence-discarded-in-place', 'pymtl3/passes/sim/PrepareSimPass.py', "        for x in signals:\n          if x is not residence and x.is_top_level_signal():", "        signals.discard( residence )\n        for x in signals:\n          if x.is_top_level_signal():", 'R-C08-nets-readonly'),
+    _m('byname-nested-lists-not-recursed', L3, "          for i in range(len(this_obj)):\n            # TODO add error message if other_obj is not a list\n            recursive_connect( this_obj[i], other_obj[i] )",
+       "          for this_elem, other_elem in zip( this_obj, other_obj ):\n            s._connect( other_elem, this_elem, internal=True )", 'R-C08-byname'),
+    _m('byname-first-element-only', L3, "          for i in range(len(this_obj)):\n            # TODO add error message if other_obj is not a list\n            recursive_connect( this_obj[i], other_obj[i] )",
+       "          recursive_connect( this_obj[0], other_obj[0] )", 'R-C08-byname'),
+    _m('byname-crossed-elements', L3, "            recursive_connect( this_obj[i], other_obj[i] )", "            recursive_connect( this_obj[i], other_obj[-1-i] )", 'R-C08-byname'),
     dict(name='ifc-o2-connect-not-tried', file=L3, old="      if not o1.connect( o2, s ): # o1.connect fail\n        if hasattr( o2, \"connect\" ):\n          if not o2.connect( o1, s ):\n            connect_by_name( o1, o2 )\n        else:\n          connect_by_name( o1, o2 )", new="      if not o1.connect( o2, s ): # o1.connect fail\n        connect_by_name( o1, o2 )", rule='R-C08-ifc-symmetric', count=1),
     dict(name='pending-flag-on-host', file=COMP, old="      top._dsl.all_adjacency[o2].add(o1)\n      top._dsl._has_pending_value_connections = True", new="      top._dsl.all_adjacency[o2].add(o1)\n      real_host._dsl._has_pending_value_connections = True", rule='R-C08-pending', count=1),
     dict(name='ancestors-top-only', file=L3, old="            obj = v.get_parent_object()\n            while obj.is_signal():\n              if obj not in writer_prop:\n                writer_prop[ obj ] = False\n              obj = obj.get_parent_object()", new="            obj = v.get_top_level_signal()\n            if obj is not v and obj not in writer_prop:\n              writer_prop[ obj ] = False", rule='R-C08-ancestors', count=1),
@@ -2473,6 +2697,8 @@ MUTANTS = [
 ]
 
 EQUIV = [
+    _m('eq-byname-zip', L3, "          for i in range(len(this_obj)):\n            # TODO add error message if other_obj is not a list\n            recursive_connect( this_obj[i], other_obj[i] )",
+       "          assert len(this_obj) == len(other_obj)\n          for this_elem, other_elem in zip( this_obj, other_obj ):\n            recursive_connect( this_elem, other_elem )"),
     _m('eq-sigsig-directions-swapped', L3, "      s._dsl.adjacency[o1].add( o2 )\n      s._dsl.adjacency[o2].add( o1 )\n\n      s._dsl.connect_order",
        "      s._dsl.adjacency[o2].add( o1 )\n      s._dsl.adjacency[o1].add( o2 )\n\n      s._dsl.connect_order"),
     _m('eq-sigsig-alias', L3, "    if o1 not in s._dsl.adjacency[o2]:\n      assert o2 not in s._dsl.adjacency[o1]\n      s._dsl.adjacency[o1].add( o2 )\n      s._dsl.adjacency[o2].add( o1 )",
